@@ -1,7 +1,7 @@
 //! Dump the u32 BDD circuit tables exactly as compiled into poulpy-bin-fhe (hook accessor).
 use poulpy_bin_fhe::bdd_arithmetic::{Node, verif_hooks::u32_circuits};
 
-pub fn dump() {
+pub fn run(_args: &[String]) {
     for (name, c) in u32_circuits() {
         println!("circuit {} in={} out={} maxstate={}", name, c.input_size(), c.output_size(), c.max_state_size());
         for bit in 0..c.output_size() {
